@@ -64,8 +64,22 @@ def case_strategy(draw, max_ops=25):
             op["dt"] = draw(st.sampled_from(DTS))
         ops.append(op)
     # most histories start by getting somewhere interesting
-    if draw(st.booleans()):
+    start = draw(st.sampled_from(["none", "up", "up", "restart-in-wait-delay", "restart-in-wait-cra", "restart-after-t3"]))
+    if start == "up":
         ops = [{"op": "enable"}, {"op": "link_up"}] + ops
+    elif start == "restart-in-wait-delay":
+        # a refused attempt, then disable/enable while the establish-communications delay of that attempt is still
+        # running, then a second refused attempt: timers of the first life must not act in the second
+        gap = draw(st.sampled_from([0.5, 1.0, 2.0, 3.0]))
+        ops = [{"op": "enable"}, {"op": "link_up"}, {"op": "s1f14_refuse"}, {"op": "advance", "dt": gap}, {"op": "disable"}, {"op": "enable"},
+               {"op": "link_up"}, {"op": "s1f14_refuse"}, {"op": "advance", "dt": draw(st.sampled_from([1.0, 2.0, DELAY - 0.1]))}, {"op": "advance", "dt": DELAY}] + ops
+    elif start == "restart-in-wait-cra":
+        gap = draw(st.sampled_from([0.5, 2.0, T3 - 0.5]))
+        ops = [{"op": "enable"}, {"op": "link_up"}, {"op": "advance", "dt": gap}, {"op": "disable"}, {"op": "enable"}, {"op": "link_up"},
+               {"op": "advance", "dt": draw(st.sampled_from([1.0, T3 - 0.1, T3 + 0.1]))}, {"op": "advance", "dt": DELAY + 0.1}] + ops
+    elif start == "restart-after-t3":
+        ops = [{"op": "enable"}, {"op": "link_up"}, {"op": "advance", "dt": T3 + 0.5}, {"op": "disable"}, {"op": "enable"}, {"op": "link_up"},
+               {"op": "s1f14_refuse"}, {"op": "advance", "dt": DELAY - 0.5}, {"op": "advance", "dt": 1.0}] + ops
     return {"ops": ops, "role": draw(st.sampled_from(["host", "equipment"]))}
 
 
